@@ -354,7 +354,7 @@ func init() {
 	register(&Property{
 		ID:    "C18",
 		Level: "other",
-		Rules: []Rule{{"L3", ruleL3}, {"L2", ruleL2}, {"I1", ruleI1}, {"I2", ruleI2}, {"I3", ruleI3}, {"P1", ruleP1}, {"I5", ruleI5}},
+		Rules: []Rule{{"L3", ruleL3}, {"L2", ruleL2}, {"I1", ruleI1}, {"I2", ruleI2}, {"I3", ruleI3}, {"P1", ruleP1}, {"I5", ruleI5}, {"V2", ruleV2}},
 		Explanation: "L3 no gkvlite lock can be held at any visitor/comparator call or file sink (the precondition for calling the API re-entrantly from a callback) and L2 no mutex is re-acquired while held. Channel typestate of the iterator, extracted from the SSA: I1 who may send/receive/close on which channel; close(next) only under !closed and followed by closed = true; consumer operations only while open. I2 every receive uses ,ok and its closed outcome leads to exit without another send (or is returned as the visitor's keep-going answer). I3 the producer defers, before anything else, an epilogue that closes items and then drains next; constructors start the producer with go; channels are unbuffered. P1 the producer's version pin is released on every path (it reads only through the exported visit functions). I5 (see below) explores the product of the consumer and producer automata extracted from these functions for every sequence of Next/Close. NOT decided: run-time goroutine exit as observed by a scheduler; abandonment without Close() (a caller contract violation).",
 		ControlSrc:  controlC18,
 		Expect: []Expect{
